@@ -143,9 +143,7 @@ detail = f'own errors {got}, wanted { {k: v[2] for k, v in cases.items()} }; chi
 # the base implementation (loop over the children), verified for receiver classes that inherit it
 _SUMN = 'aud_nerr_upto(self.children, database, LIM)'
 _INC = 'forall(lambda k: c12_includes(LST, aud_err(self.children[k], database)), 0, LIM)'
-_POS = ('forall(lambda k: aud_nerr_upto(self.children, database, k + 1) <= len(LST) and '
-        'forall(lambda j: LST[aud_nerr_upto(self.children, database, k) + j] == aud_err(self.children[k], database)[j], '
-        '0, aud_nerr(self.children[k], database)), 0, LIM)')
+_POS = 'aud_in_order(LST, self.children, database, LIM)'
 BASE_ENS = {'fresh': 'c12_fresh_lists(result)',
             'every_child_errors_included': _INC.replace('LST', 'result[0]').replace('LIM', 'len(self.children)'),
             'no_own_error': 'len(result[0]) == ' + _SUMN.replace('LIM', 'len(self.children)')}
@@ -211,4 +209,77 @@ for name, mk in ops.items():
             wrong.append((name, str(e), errs))
 violated = bool(wrong)
 detail = f'comparison nodes whose audit does not return exactly the errors of their operands: {wrong}'
+''')
+
+# ---------------------------------------------------------------------------------------------
+# leaves with an own rule
+contract(B + 'elementary_expressions.Variable.audit', 'C12', types=DB, returns=RET, modifies=[],
+         requires={'wf_leaf': 'len(self.children) == 0'},
+         raises={'BiogemeError': 'database is None'},
+         ensures={'fresh': 'c12_fresh_lists(result)',
+                  'error_iff_column_absent': 'len(result[0]) == ite(self.name in database.data.columns, 0, 1)'},
+         replay=REPLAY_TREE + '''
+from biogeme.exceptions import BiogemeError
+n_known = len(Variable('x').audit(flat)[0]); n_unknown = len(Variable('missing').audit(flat)[0])
+try:
+    Variable('x').audit(None); refused = False
+except BiogemeError:
+    refused = True
+violated = not (n_known == 0 and n_unknown == 1 and refused)
+detail = f'errors for a known column {n_known} (want 0), for an absent column {n_unknown} (want 1); BiogemeError without database: {refused}'
+''')
+
+# ---------------------------------------------------------------------------------------------
+# catalogs: delegation to the selected member
+M = B + 'multiple_expressions.MultipleExpression.'
+contract(M + 'selected', 'C12', verify=False, pure=True, returns='tuple[str, Expression]', ensures={'t': 'True'},
+         label='MultipleExpression.selected(abstract)',
+         note='the (name, expression) pair a catalog currently selects (deterministic, no side effect)')
+SEL = 'self.selected()[1]'
+contract(M + 'audit', 'C12', exact_self=False, types=DB, returns=RET, modifies=[],
+         raises={'BiogemeError': f'aud_raises({SEL}, database)'},
+         ensures={'fresh': 'c12_fresh_lists(result)',
+                  'errors_of_selected_member': f'seq_eq(result[0], aud_err({SEL}, database))'},
+         replay=REPLAY_TREE + '''
+from biogeme.catalog import Catalog
+from biogeme.expressions import NamedExpression
+cat = Catalog.from_dict('c', {'good': Variable('x'), 'bad': exp(Variable('missing'))})
+first = list(cat.audit(flat)[0])
+cat.controlled_by.set_name('bad')
+second = list(cat.audit(flat)[0])
+violated = not (first == Variable('x').audit(flat)[0] and second == exp(Variable('missing')).audit(flat)[0] and len(second) == 1)
+detail = f'catalog selecting the valid member: {first}; selecting the invalid member: {second}'
+''')
+
+# ---------------------------------------------------------------------------------------------
+# LogLogit: descent over choice, utilities and availabilities + the key-set rule + the early return.  The numpy part
+# after the early return is cut off (pyvc/libext/c12_ext.py CUTS: assumed to return normally and only to append).
+_N_ALL = 'aud_nerr_upto(self.children, database, len(self.children))'
+_KEYS_DIFFER = "(not forall(lambda x: (x in self.util) == (x in self.av), ty='int'))"
+_INVALID = (f"{_N_ALL} > 0 or {_KEYS_DIFFER} or c12_nonempty(c12_union_children('draws', self.children)) "
+            "or c12_nonempty(c12_union_children('rv', self.children))")
+LL_INV = {1: {'clauses': {k: v.replace('self.get_children()', 'self.children') for k, v in BASE_INV[1]['clauses'].items()}}}
+contract(B + 'logit_expressions.LogLogit.audit', 'C12', types=DB, returns=RET, modifies=[],
+         requires={'wf_node': 'len(self.children) >= 1 and self.children[0] is self.choice'},
+         raises=BASE_RAISES,
+         ensures={'fresh': 'c12_fresh_lists(result)',
+                  'every_child_errors_included': BASE_ENS['every_child_errors_included'],
+                  'key_sets_rule': f'len(result[0]) >= {_N_ALL} + ite({_KEYS_DIFFER}, 1, 0)',
+                  'invalid_specification_is_not_evaluated':
+                      f'implies({_INVALID}, len(result[0]) == {_N_ALL} + ite({_KEYS_DIFFER}, 1, 0))'},
+         invariants=LL_INV,
+         replay=REPLAY_TREE + '''
+bad = Variable('missing')
+one = Numeric(1)
+d = bioDraws('d', 'NORMAL')
+cases = {'fault in a utility': (LogLogit({1: bad, 2: one}, {1: one, 2: one}, Variable('y')), 1),
+         'fault in an availability': (LogLogit({1: one, 2: one}, {1: one, 2: bad}, Variable('y')), 1),
+         'fault in the choice': (LogLogit({1: one, 2: one}, {1: one, 2: one}, bad), 1),
+         'key sets differ': (LogLogit({1: one, 2: one}, {1: one, 3: one}, Numeric(1)), 1),
+         'fault and key sets': (LogLogit({1: bad, 2: one}, {1: one}, Numeric(1)), 2),
+         'valid': (LogLogit({0: Variable('x'), 1: one}, {0: one, 1: one}, Variable('y')), 0)}
+got = {k: len(e.audit(flat)[0]) for k, (e, _) in cases.items()}
+inc = all(included(e, flat) for e, _ in cases.values())
+violated = not (all(got[k] == cases[k][1] for k in cases) and inc)
+detail = f'errors {got}, wanted { {k: v[1] for k, v in cases.items()} }; child errors included: {inc}'
 ''')
